@@ -20,8 +20,10 @@ package disk
 
 //@ pred mismatch(a, b) = a > 0 - 1 && b > 0 - 1 && a != b
 //@ pred isEmptyCas(kind, hash, size) = kind == 1 && size <= 0 && hash == "e3b0c44298fc1c149afbf4c8996fb92427ae41e4649b934ca495991b7852b855"
-//@ pred wfCache(c) = c != nil && c.diskWaitSem != nil && 0 < c.maxBlobSize && c.maxBlobSize <= B62() && c.zstd != nil &&
-//@   0 < c.maxProxyBlobSize && c.maxProxyBlobSize <= B62()
+// The per-blob limits are only known to be positive (their default is math.MaxInt64); the
+// capacity of the index is immutable after construction and ASSUMED to be at most 2^47 bytes.
+//@ pred wfCache(c) = c != nil && c.diskWaitSem != nil && 0 < c.maxBlobSize && c.zstd != nil &&
+//@   0 < c.maxProxyBlobSize && 0 < c.lru.maxSize && c.lru.maxSize <= FMAX()
 //@ pred lookupKey(kind, hash) = (kind == 0 ? "ac" : (kind == 1 ? "cas" : "raw")) + "/" + hash
 
 // The published v2 file naming (C20), spelled out. kind: 0 = AC, 1 = CAS, 2 = RAW.
@@ -73,7 +75,7 @@ package disk
 //@   serves C01 C03 C04 C07 C08 C12
 //@   requires wfCache(c) && !muHeld
 //@   requires[C03] own: reservedSize <= held && 0 <= held
-//@   requires sizes: 0 <= sizeOnDisk && sizeOnDisk <= B62() && 0 <= logicalSize && logicalSize <= B62()
+//@   requires sizes: 0 <= sizeOnDisk && sizeOnDisk <= B62() && 0 <= logicalSize
 //@   modifies lruState(c.lru), held, adopted
 //@   ensures[C07] unlocked: !muHeld
 //@   ensures[C03] held: held == old(held) - ((unreserve || reservedSize <= 0) ? 0 : reservedSize)
@@ -86,7 +88,7 @@ package disk
 //@   serves C02 C03 C05 C07 C12 C14 C17 C18
 //@   requires wfCache(c) && !muHeld && held >= 0 && len(hash) == 64
 //@   requires[C02] offsetrange: offset == 0 || (0 < offset && size > 0 && offset < size)
-//@   modifies lruState(c.lru), held, resN, hitN, hitSize
+//@   modifies lruState(c.lru), held, resN, hitN, hitSize, ioState()
 //@   ensures[C07] unlocked: !muHeld
 //@   ensures[C03,C12] held: held == old(held) + ((result2 && size > 0 && result3 == nil) ? size : 0)
 //@   ensures[C18] proxylimit: (result2 && result3 == nil) ==> (c.proxy != nil && size <= c.maxProxyBlobSize && result0 == nil)
@@ -105,7 +107,7 @@ package disk
 //@   serves C02 C03 C04 C07 C08 C12 C14 C15 C17 C18
 //@   requires wfCache(c) && !muHeld && held >= 0 && ctx != nil
 //@   requires[C02] unknownsize: size <= 0 ==> offset <= 0
-//@   modifies lruState(c.lru), held, resN, hitN, hitSize, adopted, tmpOpen, tmpName, tmpRandom, tfc.idum
+//@   modifies lruState(c.lru), held, resN, hitN, hitSize, adopted, tmpOpen, tmpName, tmpRandom, tfc.idum, ioState()
 //@   ensures[C07] unlocked: !muHeld
 //@   ensures[C03,C12] noleak: held == old(held)
 //@   ensures[C04,C12] tmpclean: tmpOpen - adopted == old(tmpOpen) - old(adopted)
@@ -127,16 +129,22 @@ package disk
 
 //@ func (c *diskCache) writeAndCloseFile(ctx context.Context, r io.Reader, kind cache.EntryKind, hash string, size int64, f *os.File) (int64, error)
 //@   serves C01 C08 C14
-//@   requires c != nil && f != nil && r != nil && ctx != nil
+//@   requires c != nil && f != nil && r != nil && ctx != nil && c.zstd != nil
+//@   requires bounded: (kind == 1 && c.storageMode != 0) ==> size <= FMAX()
+//@   modifies ioState()
 //@   ensures ok: result1 == nil ==> (0 <= result0 && result0 <= B62())
+//@   ensures[C01] verified: (result1 == nil && kind == 1 && c.storageMode == 1) ==> (rdN == old(rdN) + size && rdEOF && rdStream == scat(old(rdStream), hStream) && hash == hexsum(hStream))
+//@   ensures[C08] durable: (result1 == nil && (kind != 1 || c.storageMode == 0 || c.storageMode == 1)) ==> fsyncN == old(fsyncN) + 1
 //@   ensures[C01] rawlen: (result1 == nil && size >= 0 && !(kind == 1 && c.storageMode != 0)) ==> result0 == size
 //@   call WriteAndClose#* asserts[C01] args: arg1 == r && arg2 == f && arg3 == c.storageMode && arg4 == hash && arg5 == size && kind == 1
-//@   call New#* asserts[C01] verifier: arg0 == hash && arg1 == size && kind == 1
+//@   call New#* asserts[C01] verifier: arg0 == hash && arg1 == size && kind == 1 && arg2 == iface(f)
+//@   call Copy#* asserts[C01] through: arg1 == r && (kind == 1 ==> istype(arg0, "*sha256verifier.sha256verifier"))
+//@   call Close#0 asserts[C01] verifierclosed: kind == 1 ==> istype(arg0, "*sha256verifier.sha256verifier")
 
 //@ func (c *diskCache) Put(ctx context.Context, kind cache.EntryKind, hash string, size int64, r io.Reader) (rErr error)
 //@   serves C01 C03 C04 C07 C08 C12 C18
 //@   requires wfCache(c) && !muHeld && r != nil && ctx != nil && held >= 0
-//@   modifies lruState(c.lru), held, adopted, tmpOpen, tmpName, tmpRandom, tfc.idum, pxPuts, resN
+//@   modifies lruState(c.lru), held, adopted, tmpOpen, tmpName, tmpRandom, tfc.idum, pxPuts, resN, ioState()
 //@   ensures[C18] exactlimit: (isCacheErr(rErr, 400) && resN == old(resN)) ==> (size < 0 || size > c.maxBlobSize || len(hash) != 64)
 //@   ensures[C12] once: pxPuts == old(pxPuts) || pxPuts == old(pxPuts) + 1
 //@   ensures[C12] rejectednotsent: (size > c.maxBlobSize || size < 0 || len(hash) != 64 || c.proxy == nil) ==> pxPuts == old(pxPuts)
@@ -149,6 +157,10 @@ package disk
 //@   ensures[C01] errclass: rErr != nil ==> istype(rErr, "*cache.Error")
 //@   ensures[C01,C04] failed: rErr != nil ==> adopted == old(adopted)
 //@   ensures[C01] stored: rErr == nil ==> (0 <= size && size <= c.maxBlobSize && len(hash) == 64 && (isEmptyCas(kind, hash, size) || adopted == old(adopted) + 1))
+//@   ensures[C01] casverified: (rErr == nil && kind == 1 && c.storageMode == 1 && !isEmptyCas(kind, hash, size)) ==>
+//@       (rdN == old(rdN) + size && rdEOF && rdStream == scat(old(rdStream), hStream) && hash == hexsum(hStream))
+//@   ensures[C08] durable: (rErr == nil && !isEmptyCas(kind, hash, size) && (kind != 1 || c.storageMode == 0 || c.storageMode == 1)) ==> fsyncN == old(fsyncN) + 1
+//@   call commit#* asserts[C08] synced: (kind != 1 || c.storageMode == 0 || c.storageMode == 1) ==> fsyncN == old(fsyncN) + 1
 //@   call Reserve#* asserts[C05] logical: arg1 == size
 //@   call FileLocationBase#* asserts[C04,C20] name: arg1 == kind && arg3 == hash && arg4 == size && arg2 == (kind == 1 && c.storageMode == 0)
 //@   call writeAndCloseFile#* asserts[C01] declared: arg2 == r && arg3 == kind && arg4 == hash && arg5 == size && fileName(ref(arg6)) == tmpName && tmpOpen == old(tmpOpen) + 1
@@ -168,7 +180,7 @@ package disk
 //@ func (c *diskCache) GetValidatedActionResult(ctx context.Context, hash string) (*pb.ActionResult, []byte, error)
 //@   serves C06 C11 C14
 //@   requires wfCache(c) && !muHeld && held >= 0 && ctx != nil && c.accessLogger != nil
-//@   modifies lruState(c.lru), held, resN, hitN, hitSize, adopted, tmpOpen, tmpName, tmpRandom, tfc.idum, visited
+//@   modifies lruState(c.lru), held, resN, hitN, hitSize, adopted, tmpOpen, tmpName, tmpRandom, tfc.idum, visited, ioState()
 //@   ensures[C07] unlocked: !muHeld
 //@   ensures[C03] noleak: held == old(held)
 //@   ensures[C11] validated: result0 != nil ==> result2 == nil
@@ -185,7 +197,7 @@ package disk
 //@   loop 0 modifies elems(pendingValidations)
 //@   loop 1 invariant[C06] files: filesCovered(result, pendingValidations, len(result.OutputFiles))
 //@   loop 1 invariant frame: !muHeld && held == old(held)
-//@   loop 1 modifies lruState(c.lru), held, resN, hitN, hitSize, adopted, tmpOpen, tmpName, tmpRandom, tfc.idum, elems(pendingValidations)
+//@   loop 1 modifies lruState(c.lru), held, resN, hitN, hitSize, adopted, tmpOpen, tmpName, tmpRandom, tfc.idum, elems(pendingValidations), ioState()
 //@   loop 1 invariant fresh: !old(allocated(arr(pendingValidations)))
 //@   loop 1 invariant nn: forall k Int :: (lo(pendingValidations) <= k && k < hi(pendingValidations)) ==> elems(pendingValidations)[k] != 0
 //@   loop 2 invariant[C06] files: filesCovered(result, pendingValidations, len(result.OutputFiles))
